@@ -1004,11 +1004,13 @@ def evaluate__analyze_string(self: XPathFunction, context: ta.ContextType = None
     if context is None:
         raise self.missing_context()
 
-    level = 0
+    # Maps each capturing group to its parent group (0 is the whole match)
+    parents = [0]
+    open_groups = [0]
     escaped = False
     char_class = False
-    group_levels = [0]
-    for s in compiled_pattern.pattern:
+    pattern = compiled_pattern.pattern
+    for pos, s in enumerate(pattern):
         if escaped:
             escaped = False
         elif s == '\\':
@@ -1019,10 +1021,38 @@ def evaluate__analyze_string(self: XPathFunction, context: ta.ContextType = None
         elif s == '[':
             char_class = True
         elif s == '(':
-            group_levels.append(level)
-            level += 1
+            if pattern[pos + 1:pos + 2] == '?':
+                open_groups.append(-1)  # a non-capturing group or an assertion
+            else:
+                parents.append(next(g for g in reversed(open_groups) if g >= 0))
+                open_groups.append(len(parents) - 1)
         elif s == ')':
-            level -= 1
+            open_groups.pop()
+
+    def match_content(match: re.Match[str], group: int, start: int, stop: int) -> str:
+        """
+        The matching substring as text and group elements. A nested group that
+        was captured outside the span of its parent, or before the end of a
+        preceding sibling (repeated groups), is omitted, so that the string
+        value of the result is the matching substring.
+        """
+        items = []
+        for idx in range(group + 1, len(parents)):
+            if parents[idx] != group:
+                continue
+            _start, _stop = match.span(idx)
+            if _start < start or _stop > stop:
+                continue
+            items.append(escape(input_string[start:_start]))
+            if _start == _stop:
+                items.append('<group nr="{}"/>'.format(idx))
+            else:
+                items.append('<group nr="{}">{}</group>'.format(
+                    idx, match_content(match, idx, _start, _stop)
+                ))
+            start = _stop
+        items.append(escape(input_string[start:stop]))
+        return ''.join(items)
 
     lines = ['<analyze-string-result xmlns="{}">'.format(XPATH_FUNCTIONS_NAMESPACE)]
     k = 0
@@ -1032,64 +1062,12 @@ def evaluate__analyze_string(self: XPathFunction, context: ta.ContextType = None
         if match is None:
             lines.append('<non-match>{}</non-match>'.format(escape(input_string[k:])))
             break
-        elif not match.groups():
-            start, stop = match.span()
-            if start > k:
-                lines.append('<non-match>{}</non-match>'.format(escape(input_string[k:start])))
-            lines.append('<match>{}</match>'.format(escape(input_string[start:stop])))
-            k = stop
-        else:
-            start, stop = match.span()
-            if start > k:
-                lines.append('<non-match>{}</non-match>'.format(escape(input_string[k:start])))
-                k = start
 
-            match_items = []
-            group_tmpl = '<group nr="{}">{}'
-            empty_group_tmpl = '<group nr="{}"/>'
-            unclosed_groups = 0
-
-            for idx in range(1, compiled_pattern.groups + 1):
-                _start, _stop = match.span(idx)
-                if _start < 0:
-                    continue
-                elif _start > k:
-                    if unclosed_groups:
-                        for _ in range(unclosed_groups):
-                            match_items.append('</group>')
-                        unclosed_groups = 0
-
-                    match_items.append(escape(input_string[k:_start]))
-
-                if _start == _stop:
-                    if group_levels[idx] <= group_levels[idx - 1]:
-                        for _ in range(unclosed_groups):
-                            match_items.append('</group>')
-                        unclosed_groups = 0
-                    match_items.append(empty_group_tmpl.format(idx))
-                    k = _stop
-                elif idx == compiled_pattern.groups:
-                    k = _stop
-                    match_items.append(group_tmpl.format(idx, escape(input_string[_start:k])))
-                    match_items.append('</group>')
-                else:
-                    next_start = match.span(idx + 1)[0]
-                    if next_start < 0 or _stop < next_start or _stop == next_start \
-                            and group_levels[idx + 1] <= group_levels[idx]:
-                        k = _stop
-                        match_items.append(group_tmpl.format(idx, escape(input_string[_start:k])))
-                        match_items.append('</group>')
-                    else:
-                        k = next_start
-                        match_items.append(group_tmpl.format(idx, escape(input_string[_start:k])))
-                        unclosed_groups += 1
-
-            for _ in range(unclosed_groups):
-                match_items.append('</group>')
-
-            match_items.append(escape(input_string[k:stop]))
-            k = stop
-            lines.append('<match>{}</match>'.format(''.join(match_items)))
+        start, stop = match.span()
+        if start > k:
+            lines.append('<non-match>{}</non-match>'.format(escape(input_string[k:start])))
+        lines.append('<match>{}</match>'.format(match_content(match, 0, start, stop)))
+        k = stop
 
     lines.append('</analyze-string-result>')
     if self.parser.defuse_xml:
